@@ -92,8 +92,41 @@ func ruleIDAllocator(c *Ctx) {
 	mu := P.Field("server/id", "allocatorImpl", "mu")
 	allocFn := P.Method("server/id", "allocatorImpl", "Alloc")
 	rebase := P.Method("server/id", "allocatorImpl", "rebaseLocked")
-	step, ok := constIntObj(P.obj("server/id", "allocStep"))
-	c.Check(ok && step > 0, rule, "allocStep", "a positive constant", P.pos(P.obj("server/id", "allocStep").Pos()), fmt.Sprint(step))
+	// the window step: a positive constant, or a field of the allocator that only ever receives positive values
+	// (a positive constant, or a value stored under `v > 0`) and is not assigned by the allocator's own methods
+	isStep := func(v ssa.Value) (bool, string) {
+		if k, isC := constInt(v); isC {
+			return k > 0, fmt.Sprintf("constant %d", k)
+		}
+		f := loadedField(v)
+		if f == nil || f == base || f == end {
+			return false, "neither a constant nor a step field"
+		}
+		n := 0
+		for _, fn := range P.Funcs {
+			if fnPkgPath(fn) != modPath+"/server/id" {
+				continue
+			}
+			for _, st := range storesToField(fn, f) {
+				n++
+				if fn.Signature.Recv() != nil && fn.Parent() == nil {
+					return false, "the step field is assigned by " + fnName(fn)
+				}
+				if k, isC := constInt(st.Val); isC {
+					if k <= 0 {
+						return false, "non-positive step stored in " + fnName(fn)
+					}
+					continue
+				}
+				s := st
+				_, fails := requireAt(P, fn, 0, []Ev{guardRel("stored step > 0", "> !=", same(st.Val), isConstInt(0))}, func(x ssa.Instruction) bool { return x == ssa.Instruction(s) }, all)
+				if len(fails) > 0 {
+					return false, "a step of unknown sign is stored in " + fnName(fn)
+				}
+			}
+		}
+		return n > 0, "field " + f.Name()
+	}
 
 	// lock discipline
 	guardedBy(c, c.Prop+"/id-lock", base, mu, nil)
@@ -134,14 +167,23 @@ func ruleIDAllocator(c *Ctx) {
 						c.Check(derivesFrom(putVal, same(st.Val), 8), rule, "value of end in "+fnName(fn), "the in-memory end is the value that was written to the key", P.instrPos(st), "put value does not derive from the stored end")
 						// end = loaded + allocStep
 						bo, isBin := strip(st.Val).(*ssa.BinOp)
-						c.Check(isBin && bo.Op == token.ADD && isConstInt(step)(bo.Y), rule, "new end in "+fnName(fn), "new end = previous end + allocStep", P.instrPos(st), "")
+						okStep, why := false, "not an addition"
+						if isBin && bo.Op == token.ADD {
+							okStep, why = isStep(bo.Y)
+						}
+						c.Check(okStep, rule, "new end in "+fnName(fn), "new end = previous end + allocStep (a positive step)", P.instrPos(st), why)
 					} else {
 						bo, isBin := strip(st.Val).(*ssa.BinOp)
-						okB := isBin && bo.Op == token.SUB && isConstInt(step)(bo.Y)
+						okB := isBin && bo.Op == token.SUB
 						if okB {
-							// minuend is the new end
+							// minuend is the new end, subtrahend the step that was added
 							es := storesToField(fn, end)
 							okB = len(es) > 0 && sameVal(bo.X, es[0].Val)
+							if okB {
+								eb, isB := strip(es[0].Val).(*ssa.BinOp)
+								k1, c1 := constInt(bo.Y)
+								okB = isB && (sameVal(eb.Y, bo.Y) || (c1 && isConstInt(k1)(eb.Y)))
+							}
 						}
 						c.Check(okB, rule, "new base in "+fnName(fn), "new base = new end − allocStep", P.instrPos(st), "")
 					}
